@@ -845,3 +845,102 @@ impl Adversary for ConnectedAttacker {
         }
     }
 }
+
+// ---------------------------------------------------------------------------------------------
+// A hostile *server*: the raw socket a genuine client connects to. It answers the client's
+// connection request by hand - echoing its nonce, with negotiated limits from the boundary set a
+// peer can put on the wire (0, 1, a fragment, 2^32-1) - and then behaves like the connected
+// hostile peer: crafted data / sync / ack / handshake / disconnect frames computed from what the
+// client tells it.
+pub struct HostileServer {
+    rng: Rng,
+    raw: usize,
+    client: usize,
+    view: Seen,
+    answered: u64,
+    nonce: u32,
+    count: u64,
+    max: u64,
+    until_us: u64,
+    rate: f64,
+    burst_max: u64,
+    allow_big: bool,
+    /// how the connection request is answered: 0 = properly, 1 = twice with different limits,
+    /// 2 = with a refusal after the SYN-ACK, 3 = late (after several repeats of the request)
+    style: u64,
+}
+
+impl HostileServer {
+    pub fn new(plan: &Plan) -> Self {
+        let mut rng = Rng::keyed(&[plan.fate_seed.unwrap_or(0), 0x68737276]);
+        let raw = plan.endpoints.iter().position(|e| matches!(e.kind, EndpointKind::Raw)).unwrap_or(0);
+        let client = plan.endpoints.iter().position(|e| matches!(e.kind, EndpointKind::Client { .. })).unwrap_or(0);
+        let rate = *rng.pick(&[0.05, 0.2, 0.6]);
+        let burst_max = *rng.pick(&[1u64, 4, 20]);
+        let nonce = if rng.chance(0.3) { 0u32.wrapping_sub(rng.below(5000) as u32) } else { rng.u32() };
+        let style = rng.below(4);
+        Self { rng, raw, client, view: Seen::default(), answered: 0, nonce, count: 0, max: plan.param("hostile_max", 500.0) as u64, until_us: plan.param("hostile_until_us", 0.0) as u64, rate, burst_max, allow_big: plan.param("hostile_big", 0.0) != 0.0, style }
+    }
+
+    fn limits(&mut self) -> (u32, u32, u32) {
+        let r = &mut self.rng;
+        let rate = *r.pick(&[0u32, 1, 22, 23, 1472, 100_000, 2_000_000, u32::MAX]);
+        let pkt = *r.pick(&[0u32, 1, 1000, 1448, 1449, 1_000_000, u32::MAX]);
+        let alloc = *r.pick(&[0u32, 1, 100, 1448, 1449, 5000, 1_000_000, u32::MAX]);
+        (rate, pkt, alloc)
+    }
+}
+
+impl Adversary for HostileServer {
+    fn on_wire(&mut self, w: &WireRec, now_us: u64, _plan: &Plan, out: &mut Vec<TimedOp>) {
+        if w.src != self.client || w.dst != Some(self.raw) {
+            return;
+        }
+        self.view.observe(&w.bytes);
+        if let Some(uv::Frame::HandshakeSynFrame(f)) = uv::Frame::read(&w.bytes) {
+            self.answered += 1;
+            if self.style == 3 && self.answered < 3 {
+                return;
+            }
+            if self.answered > 4 {
+                return;
+            }
+            let (rate, pkt, alloc) = self.limits();
+            let nonce_ack = if self.rng.chance(0.9) { f.nonce } else { f.nonce ^ (1 << self.rng.below(32)) };
+            self.view.tx_frame = Some(f.nonce);
+            self.view.tx_packet = Some(f.nonce & 0xFFFFF);
+            self.view.rx_frame_base = Some(self.nonce);
+            self.view.rx_packet_base = Some(self.nonce & 0xFFFFF);
+            let dt = self.rng.below(100_000);
+            out.push(TimedOp { t_us: now_us + dt, rank: DELIVER_RANK_PUB, op: Op::Inject { to: self.client, from: self.raw, bytes: enc_syn_ack(nonce_ack, self.nonce, rate, pkt, alloc), twin: true } });
+            match self.style {
+                1 => {
+                    let (rate, pkt, alloc) = self.limits();
+                    let n2 = if self.rng.chance(0.5) { self.nonce } else { self.nonce.wrapping_add(1) };
+                    out.push(TimedOp { t_us: now_us + dt + self.rng.below(50_000), rank: DELIVER_RANK_PUB, op: Op::Inject { to: self.client, from: self.raw, bytes: enc_syn_ack(nonce_ack, n2, rate, pkt, alloc), twin: true } });
+                }
+                2 => {
+                    let kind = self.rng.below(4) as u8;
+                    out.push(TimedOp { t_us: now_us + dt + self.rng.below(2_000_000), rank: DELIVER_RANK_PUB, op: Op::Inject { to: self.client, from: self.raw, bytes: enc_hs_err(f.nonce, kind), twin: true } });
+                }
+                _ => (),
+            }
+        }
+    }
+
+    fn on_call_end(&mut self, _call: u64, ep: Option<usize>, _probe: &Probe, now_us: u64, _plan: &Plan, out: &mut Vec<TimedOp>) {
+        if ep != Some(self.client) || now_us >= self.until_us || self.count >= self.max || self.answered == 0 {
+            return;
+        }
+        if !self.rng.chance(self.rate) {
+            return;
+        }
+        let n = self.rng.range(1, self.burst_max);
+        for _ in 0..n {
+            let bytes = hostile_frame(&mut self.rng, &self.view, 4096, self.allow_big);
+            let dt = if self.rng.chance(0.7) { 0 } else { self.rng.below(200_000) };
+            out.push(TimedOp { t_us: now_us + dt, rank: DELIVER_RANK_PUB, op: Op::Inject { to: self.client, from: self.raw, bytes, twin: true } });
+            self.count += 1;
+        }
+    }
+}
